@@ -22,6 +22,15 @@ Theorem C03_decoder_strict :
 Proof. exact utf8_next_strict. Qed.
 Print Assumptions C03_decoder_strict.
 
+(* ... and what it delivers for a well-formed character is that character's Unicode scalar value (RFC 3629 section 3),
+   consuming exactly the character's bytes; the values lie in 128..0x10FFFF outside the surrogate range *)
+Theorem C03_decoder_value :
+  forall e r, wf_nonascii e ->
+    utf8_next (e ++ r) = Some (scalar_of e, r) /\
+    (128 <= scalar_of e <= 1114111)%N /\ ~ (55296 <= scalar_of e <= 57343)%N.
+Proof. intros e r H. split; [exact (utf8_next_value e r H) | exact (scalar_of_range e H)]. Qed.
+Print Assumptions C03_decoder_value.
+
 Theorem C03_accepted_is_wellformed_utf8 :
   forall s, local6531 cfg0 s = 0%Z -> wf_utf8 s.
 Proof. intros s H. apply (spec6_wf false). apply C03_local_part_grammar. exact H. Qed.
